@@ -175,6 +175,11 @@ func PanicMsg(f func()) (msg string) {
 	return ""
 }
 
+// TrackMutexes: in the engine sync.Mutex / RWMutex are no-ops by default (one thread).  When switched on, the
+// engine keeps their lock state, and acquiring a lock that is held parks the caller: under RunUntilBlocked this
+// models another goroutine that calls into a monitor while the current one is inside it.  Natively a no-op.
+func TrackMutexes(on bool) {}
+
 // YieldOnWaitGroup: in the engine sync.WaitGroup.Wait is a no-op by default (the harness runs the goroutines
 // itself); when switched on, Wait calls the OnYield environment once (tag "wg"), which is expected to run the
 // goroutines that are waited for.  Natively the real WaitGroup waits.
